@@ -282,7 +282,7 @@ let run_adf id (lines : string list) =
             let two = (List.hd q = "twoval") in
             let heu = heuristic_of_words h rest in
             (match nogood_search_cur c a.ac heu two (nat_of_int !ng_budget) a.st !draws with
-             | Some (s, l) -> a.st <- s; emit id qid (List.hd q ^ " " ^ interps_string l)
+             | Some ((s, l), rest) -> a.st <- s; draws := rest; emit id qid (List.hd q ^ " " ^ interps_string l)
              | None -> emit id qid (List.hd q ^ " NONTERMINATION"))
           | ["counts"; m] ->
             let l = List.map (fun t -> let (s, r) = models c a.st t (m = "1") in a.st <- s; r) a.ac in
